@@ -416,10 +416,11 @@ func runC02(c *core.Ctx) {
 	}
 	cloneSwaps := r.Chance(1, 3)
 	maybeClone := func() {
-		if sib != nil && !sibCheck("Clone") {
-			return
-		}
 		if cloneSwaps && r.Chance(1, 25) {
+			// the sibling about to be replaced gets a last look (small ones only: a look costs O(n))
+			if sib != nil && len(sibIn) <= 3000 && !sibCheck("Clone") {
+				return
+			}
 			// continue on a clone: "after every Add or Remove" also holds for trees that came out of Clone
 			cl := t.Clone()
 			// the tree that is not continued on stays around as a sibling: mutations of one
